@@ -22,5 +22,5 @@ for f in sorted(glob.glob('/verif/evidence/*.json')):
     except Exception as e: print(f,'INVALID',str(e)[:200]); bad=1
 print("evidence files valid" if not bad else "EVIDENCE INVALID")
 PY
-grep -l "^VIOLATION" /tmp/q/*.log >/dev/null 2>&1 && { grep -h "^VIOLATION" /tmp/q/*.log | cut -c1-300; exit 1; }
+grep -l "^VIOLATION" /tmp/q/C??.log >/dev/null 2>&1 && { grep -h "^VIOLATION" /tmp/q/C??.log | cut -c1-300; exit 1; }
 exit 0
